@@ -608,4 +608,181 @@ theorem src_applyMask_table (s : Src) (m : List Bool) :
     · simp only [h, ↓reduceIte]
 
 
+/-! ## Deepening round D: the time-string grammar -/
+
+/-- **The hand-written matcher accepts exactly the language of the regular expression, with the same captures.** -/
+theorem matchBody_iff (cs : List Char) (toks : List Tok) : matchBody cs = some toks ↔ BodyMatch cs toks := by
+  constructor
+  · intro h
+    have h' := h
+    unfold matchBody at h'
+    split at h'
+    · cases h'
+    · rename_i toks' trailing hlex
+      obtain ⟨gs, post, hwf, hp, hcs, hts, htr⟩ := lexToks_sound _ _ _ _ hlex
+      subst hcs
+      rw [matchBody_eq gs post hwf hp] at h
+      obtain ⟨hchk, hab⟩ := ite_some_eq h
+      subst hab
+      refine body_of_canon gs post ((checksG_iff gs post hwf hp _ ?_).mp hchk)
+      intro g hg
+      cases gs with
+      | nil => simp at hg
+      | cons g' gs' =>
+        simp only [List.head?_cons, Option.some.injEq] at hg; subst hg
+        have := leading_eq g' (hwf g' (by simp)) (strsG gs' ++ post)
+        simpa [strsG, List.append_assoc] using this
+  · intro h
+    obtain ⟨gs, post, hcs, hc, htk⟩ := canon_of_body cs toks h
+    obtain ⟨hwf, hp⟩ := canonTail_wf 0 gs post hc.1
+    subst hcs; subst htk
+    rw [matchBody_eq gs post hwf hp, if_pos]
+    refine (checksG_iff gs post hwf hp _ ?_).mpr hc
+    intro g hg
+    cases gs with
+    | nil => simp at hg
+    | cons g' gs' =>
+      simp only [List.head?_cons, Option.some.injEq] at hg; subst hg
+      have := leading_eq g' (hwf g' (by simp)) (strsG gs' ++ post)
+      simpa [strsG, List.append_assoc] using this
+
+
+/-- Two ways of matching the same text capture the same numbers and units. -/
+theorem captures_unique (cs : List Char) (t1 t2 : List Tok) (h1 : BodyMatch cs t1) (h2 : BodyMatch cs t2) :
+    t1 = t2 := by
+  have a := (matchBody_iff cs t1).mpr h1
+  have b := (matchBody_iff cs t2).mpr h2
+  rw [a] at b; injection b
+
+theorem body_not_minus (body : List Char) (toks : List Tok) (h : BodyMatch body toks) (r : List Char) :
+    body ≠ '-' :: r := by
+  intro he
+  obtain ⟨gs, post, hcs, hc, _⟩ := canon_of_body body toks h
+  obtain ⟨hwf, hp⟩ := canonTail_wf 0 gs post hc.1
+  have := strsG_head gs post hwf hp '-' r (by rw [← hcs, he])
+  revert this; decide
+
+/-- **The language and the value of `Timeindex`'s regular expression**: an optional `-`, then the body; the value is
+    the sum over the captured groups of `⌊number × ratio⌋`, negated after a `-`. -/
+def TimeString (cs : List Char) (v : Int) : Prop :=
+  ∃ body toks, BodyMatch body toks ∧
+    ((cs = body ∧ v = (((toks.map tokNs).sum : Nat) : Int)) ∨
+     (cs = '-' :: body ∧ v = -(((toks.map tokNs).sum : Nat) : Int)))
+
+theorem matchFull_iff (cs : List Char) (v : Int) : matchFull cs = some v ↔ TimeString cs v := by
+  constructor
+  · intro h
+    unfold matchFull at h
+    split at h
+    · cases h
+    · rename_i toks hb
+      injection h with h
+      have hbm := (matchBody_iff _ _).mp hb
+      refine ⟨(splitSign cs).2, toks, hbm, ?_⟩
+      unfold splitSign at h hb hbm ⊢
+      split at h
+      · right; exact ⟨rfl, by simpa using h.symm⟩
+      · left; exact ⟨rfl, by simpa using h.symm⟩
+  · rintro ⟨body, toks, hbm, h⟩
+    have hb := (matchBody_iff _ _).mpr hbm
+    rcases h with ⟨hcs, hv⟩ | ⟨hcs, hv⟩
+    · subst hcs
+      have hs : splitSign cs = (false, cs) := by
+        unfold splitSign
+        split
+        · rename_i r; exact absurd rfl (body_not_minus _ toks hbm r)
+        · rfl
+      unfold matchFull
+      rw [hs]; simp only [hb, hv]; rfl
+    · subst hcs
+      unfold matchFull
+      simp only [splitSign, hb, hv]; rfl
+
+/-- `Timeindex(s)`: the whole string is a time string, or — Python's `$` — it is one followed by a single newline. -/
+theorem parseTime_spec (s : String) (v : Int) :
+    parseTime s = some v ↔
+      TimeString s.toList v ∨
+      ((∀ w, ¬ TimeString s.toList w) ∧ ∃ body, s.toList = body ++ ['\n'] ∧ TimeString body v) := by
+  cases hm : matchFull s.toList with
+  | some w =>
+    have hp : parseTime s = some w := by simp only [parseTime, hm]
+    rw [hp]
+    have hw := (matchFull_iff _ _).mp hm
+    constructor
+    · intro h; injection h with h; subst h; exact Or.inl hw
+    · rintro (h | ⟨h, _⟩)
+      · have := (matchFull_iff _ _).mpr h; rw [hm] at this; exact this
+      · exact absurd hw (h w)
+  | none =>
+    have hp : parseTime s = match s.toList.getLast? with
+        | some '\n' => matchFull s.toList.dropLast
+        | _ => none := by simp only [parseTime, hm]; rfl
+    rw [hp]
+    have hnone : ∀ w, ¬ TimeString s.toList w := by
+      intro w hw; have := (matchFull_iff _ _).mpr hw; rw [hm] at this; cases this
+    constructor
+    · intro h
+      right
+      refine ⟨hnone, ?_⟩
+      split at h
+      · rename_i hl
+        obtain ⟨ys, hys⟩ := List.getLast?_eq_some_iff.mp hl
+        refine ⟨s.toList.dropLast, ?_, (matchFull_iff _ _).mp h⟩
+        rw [hys]; simp
+      · cases h
+    · rintro (h | ⟨_, body, hb, hv⟩)
+      · exact absurd h (hnone v)
+      · have hl : s.toList.getLast? = some '\n' := by rw [hb]; simp
+        have hd : s.toList.dropLast = body := by rw [hb]; simp
+        split
+        · rw [hd]; exact (matchFull_iff _ _).mpr hv
+        · rename_i hne; exact absurd hl (hne)
+
+
+/-- non-vacuity: "1.5s" as a match of the regular expression (whole part `1`, a dot, decimals `5`, unit `s`) -/
+example : BodyMatch "1.5s".toList [⟨⟨15, 1⟩, 3⟩] :=
+  BodyMatch.absent _ _ (TailMatch.absent 1 [] _ _ (by omega) rfl (TailMatch.absent 2 [] _ _ (by omega) rfl
+    (TailMatch.present 3 [] "1.5s".toList [] _ [] (by omega) rfl
+      (GroupMatch.mk ['1'] ['5'] [] true rfl rfl (by simp) rfl)
+      (TailMatch.absent 4 [] _ _ (by omega) rfl (TailMatch.absent 5 [] _ _ (by omega) rfl
+        (TailMatch.absent 6 [] _ _ (by omega) rfl TailMatch.done))))))
+example : TimeString "-1m 30s".toList (-90000000000) := (matchFull_iff _ _).mp (by decide)
+example : ¬ TimeString "1ns ".toList 1 := fun h => by
+  have := (matchFull_iff _ _).mpr h; revert this; decide
+
+/-! ## Deepening round D: the value of a group -/
+
+/-- positional value of a digit string, most significant digit first -/
+def decValue : List Char → Nat
+  | [] => 0
+  | c :: cs => digitVal c * 10 ^ cs.length + decValue cs
+
+theorem foldl_digits (ds : List Char) (acc : Nat) :
+    ds.foldl (fun acc c => acc * 10 + digitVal c) acc = acc * 10 ^ ds.length + decValue ds := by
+  induction ds generalizing acc with
+  | nil => simp [decValue]
+  | cons c cs ih =>
+    simp only [List.foldl_cons, ih, decValue, List.length_cons, Nat.pow_succ]
+    rw [Nat.add_mul, Nat.mul_assoc, Nat.mul_comm 10 (10 ^ cs.length), Nat.add_assoc]
+
+/-- The digit reader computes the positional decimal value. -/
+theorem digitsToNat_eq (ds : List Char) : digitsToNat ds = decValue ds := by
+  unfold digitsToNat; rw [foldl_digits]; simp
+
+/-- A group contributes the whole number of nanoseconds in `number × ratio`, the number being the exact decimal
+    `mant / 10^decimals`: `tokNs ≤ mant·ratio / 10^decimals < tokNs + 1`, stated without division. -/
+theorem tokNs_floor (t : Tok) (r : Nat) (hr : (units[t.unit]?).map (·.2) = some r) :
+    tokNs t * 10 ^ t.num.decimals ≤ t.num.mant * r ∧ t.num.mant * r < (tokNs t + 1) * 10 ^ t.num.decimals := by
+  unfold tokNs
+  rw [hr]
+  simp only [Option.getD_some]
+  have hpos : 0 < 10 ^ t.num.decimals := Nat.pow_pos (by omega)
+  constructor
+  · exact Nat.div_mul_le_self _ _
+  · have := Nat.lt_mul_div_succ (t.num.mant * r) hpos
+    rw [Nat.mul_comm (10 ^ t.num.decimals)] at this
+    exact this
+
+example : tokNs ⟨⟨41, 1⟩, 3⟩ = 4100000000 := by decide
+
 end Verif.C01
